@@ -12,8 +12,10 @@ Record case := mk_case {
   k_table : string; k_schema : schema; k_op : op;
   k_selects : list sitem; k_omits : list sitem;
   k_rows : list payload; k_stored : list srow; k_model_key : mkey; k_where : option (list Z);
+  k_vschema : option schema;             (* the value's own struct type, when it is not the model's *)
+  k_earlier : list (bool * payload);     (* map updates made before through the same handle: (skip_hooks, map) *)
   (* observed *)
-  o_cells : list cell; o_err : bool; o_parsed : list pf; o_setup_failed : bool
+  o_cells : list cell; o_err : bool; o_parsed : list pf; o_vparsed : list pf; o_setup_failed : bool
 }.
 
 Fixpoint all2 {A B} (f : A -> B -> bool) (la : list A) (lb : list B) : bool :=
@@ -30,12 +32,16 @@ Definition pf_agrees (f : field) (p : pf) : bool :=
   && Bool.eqb (pf_c p) (creatable f) && Bool.eqb (pf_u p) (updatable f) && Bool.eqb (pf_r p) (readable f).
 
 Definition model_agrees (c : case) : bool :=
-  let m := run_op (k_schema c) (k_table c) (k_op c) (k_selects c) (k_omits c) (k_rows c)
-                  (k_stored c) (k_model_key c) (k_where c) in
+  let m := run_case (k_schema c) (k_table c) (k_op c) (k_selects c) (k_omits c) (k_rows c)
+                    (k_stored c) (k_model_key c) (k_where c) (k_vschema c) (k_earlier c) in
   negb (o_setup_failed c)
   (* the hypotheses of the Props_C10 theorems hold of this case *)
   && wfb (k_schema c) && local (k_table c) (k_selects c) && local (k_table c) (k_omits c)
   && raw_dom (k_schema c) (k_selects c) (k_omits c) (k_rows c)
+  && match k_vschema c with
+     | Some us => wfb us && patch_dom (k_schema c) us && all2 pf_agrees us (o_vparsed c)
+     | None => true
+     end
   && Bool.eqb (o_err c) (out_err m)
   && cells_eqb (o_cells c) (out_cells m)
   && all2 pf_agrees (k_schema c) (o_parsed c).
@@ -43,6 +49,6 @@ Definition model_agrees (c : case) : bool :=
 Definition spec_holds (c : case) : bool :=
   negb (o_setup_failed c)
   && spec_case (k_schema c) (k_table c) (k_op c) (k_selects c) (k_omits c) (k_rows c)
-               (k_stored c) (k_model_key c) (k_where c) (o_cells c) (o_err c).
+               (k_stored c) (k_model_key c) (k_where c) (k_vschema c) (o_cells c) (o_err c).
 
 Definition check_case (c : case) : N := code_of (model_agrees c) (spec_holds c).
